@@ -454,3 +454,93 @@ Proof.
   intros [BK AI W ST YS Hrv MODE] Erv HI. destruct MODE as [[Nrv _]|[_ [GJ OKb]]]; [contradiction|].
   constructor; try assumption. apply geo2_entry_merged; assumption.
 Qed.
+
+(* Blocks::mergeLeft as a whole (stamp, setUpInConstraints, findMinInConstraint, the loop) *)
+Theorem merge_left_split Yb rv s l s' :
+  MLS Yb rv (base s) l ->
+  (forall s1 c,
+     find_min_in (set_up_heap true (set_btime (set_ctr s (S (ctr s))) (upd_nth (btime s) l (S (ctr s)))) l) l = Ok (s1, c) ->
+     ml_roots_ok (loop_fuel s) s1 l c) ->
+  merge_left s l = Ok s' ->
+  exists M, MLS Yb rv (base s') M /\
+    (forall i, (i < length (scons (base s')))%nat -> blk_of (base s') (cr (con_of (base s') i)) = M ->
+               blk_of (base s') (cl (con_of (base s') i)) <> M -> 0 <= slack_val (base s') i) /\
+    scons (base s') = scons (base s) /\ svars (base s') = svars (base s).
+Proof.
+  intros I R H. unfold merge_left in H. apply bind_ok in H. destruct H as [[s1 c1] [H1 H2]]. cbn [fst snd] in H2.
+  pose proof (find_min_in_base _ _ _ _ H1) as E1. rewrite base_set_up_heap in E1. cbn [base set_btime set_ctr] in E1.
+  assert (I1 : MLS Yb rv (base s1) l) by (rewrite E1; exact I).
+  destruct (ml_loop_split Yb rv _ _ _ _ _ I1 (R s1 c1 H1) H2) as [M [IM [HI [A B]]]].
+  exists M. split; [exact IM|]. split; [exact HI|]. rewrite E1 in A, B. auto.
+Qed.
+
+(* entering mergeLeft(l): from an all-satisfied configuration Yb the new left half l has moved rigidly to the left *)
+Lemma MLS_entry Yb rv b l dl :
+  book b -> act_inv b -> wf_vars (svars b) -> all_blk_st b -> ok_except b (blk_of b rv) -> blk_of b rv <> l ->
+  ysat Yb b -> (rv < length (svars b))%nat -> 0 <= dl ->
+  (forall u, (u < length (svars b))%nat -> blk_of b u = l -> Yof b u == Yb u - dl) ->
+  (forall u, (u < length (svars b))%nat -> blk_of b u <> l -> Yof b u == Yb u) ->
+  MLS Yb rv b l.
+Proof.
+  intros BK AI W ST OE Nrv YS Hrv Hd Y1 Y2. constructor; try assumption.
+  left. split; [exact Nrv|]. split; [|exact OE]. constructor.
+  - exact Y2.
+  - intros u Hu E. rewrite (Y1 u Hu E). lra.
+  - intros i u Hi Eri Nli Hu Eu. destruct (con_ends_lt _ _ BK Hi) as [Hil Hir].
+    rewrite (slack_Y' b i W), (Y1 _ Hir Eri), (Y2 _ Hil Nli), (Y1 u Hu Eu). pose proof (YS i Hi). lra.
+  - intros c Hc El Er. destruct (con_ends_lt _ _ BK Hc) as [Hcl Hcr].
+    rewrite (slack_Y' b c W), (Y1 _ Hcr Er), (Y1 _ Hcl El). pose proof (YS c Hc). lra.
+Qed.
+
+(* ------------------------------------------------------------------ boolean form of ml_roots_ok (non-vacuity by computation) *)
+Definition is_in (s : sst) (r i : nat) : bool := Nat.eqb (rblk s i) r && negb (Nat.eqb (lblk s i) r).
+Definition in_root_okb (s : sst) (r : nat) (c : option nat) : bool :=
+  let m := length (scons (base s)) in
+  match c with
+  | Some c0 => Nat.ltb c0 m && is_in s r c0 &&
+               forallb (fun i => negb (is_in s r i) || Qleb (sslack s c0) (sslack s i) || Qleb 0 (sslack s i)) (seq 0 m)
+  | None => forallb (fun i => negb (is_in s r i) || Qleb 0 (sslack s i)) (seq 0 m)
+  end.
+Lemma is_in_spec s r i : is_in s r i = true <-> (rblk s i = r /\ lblk s i <> r).
+Proof. unfold is_in. rewrite andb_true_iff, negb_true_iff, Nat.eqb_eq, Nat.eqb_neq. tauto. Qed.
+Lemma in_root_okb_spec s r c : in_root_okb s r c = true -> in_root_ok s r c.
+Proof.
+  unfold in_root_okb, in_root_ok. destruct c as [c0|].
+  - rewrite !andb_true_iff, Nat.ltb_lt, is_in_spec, forallb_forall. intros [[A [B C]] D].
+    split; [exact A|]. split; [exact B|]. split; [exact C|]. intros i Hi Ei Ni.
+    assert (Hin : In i (seq 0 (length (scons (base s))))) by (apply in_seq; lia).
+    specialize (D i Hin). rewrite !orb_true_iff, negb_true_iff in D.
+    destruct D as [[D|D]|D].
+    + exfalso. assert (X : is_in s r i = true) by (apply is_in_spec; auto). congruence.
+    + left. apply Qleb_spec. exact D.
+    + right. apply Qleb_spec. exact D.
+  - rewrite forallb_forall. intros D i Hi Ei Ni.
+    assert (Hin : In i (seq 0 (length (scons (base s))))) by (apply in_seq; lia).
+    specialize (D i Hin). rewrite orb_true_iff, negb_true_iff in D. destruct D as [D|D].
+    + exfalso. assert (X : is_in s r i = true) by (apply is_in_spec; auto). congruence.
+    + apply Qleb_spec. exact D.
+Qed.
+Fixpoint ml_roots_okb (fuel : nat) (s : sst) (r : nat) (c : option nat) : bool :=
+  match fuel with
+  | O => true
+  | S f =>
+      in_root_okb s r c &&
+      match c with
+      | None => true
+      | Some c0 =>
+          if Qltb (sslack (snote_slack TIE_EPS s c0 0) c0) 0 then
+            match ml_body (snote_slack TIE_EPS s c0 0) r c0 with
+            | Ok (s', r', c') => ml_roots_okb f s' r' c'
+            | _ => true
+            end
+          else true
+      end
+  end.
+Lemma ml_roots_okb_spec : forall fuel s r c, ml_roots_okb fuel s r c = true -> ml_roots_ok fuel s r c.
+Proof.
+  induction fuel as [|f IH]; intros s r c H; [exact I|].
+  rewrite ml_roots_ok_S. cbn [ml_roots_okb] in H. apply andb_prop in H. destruct H as [H1 H2].
+  split; [apply in_root_okb_spec; exact H1|]. destruct c as [c0|]; [|exact I].
+  destruct (Qltb _ _); [|exact I].
+  destruct (ml_body _ r c0) as [[[s' r'] c']| |]; try exact I. apply IH. exact H2.
+Qed.
